@@ -693,6 +693,62 @@ theorem scanCands_on_scan_line (poly : Poly) (mn mx : Pt) :
   obtain ⟨c', _, rfl⟩ := hc
   rfl
 
+/-! ### every scan candidate is the midpoint of two boundary crossings -/
+
+private theorem mem_insertBy {α : Type} (le : α → α → Bool) (a x : α) :
+    ∀ l : List α, x ∈ insertBy le a l ↔ x = a ∨ x ∈ l
+  | [] => by simp [insertBy]
+  | b :: bs => by
+    simp only [insertBy]
+    split
+    · simp
+    · simp only [List.mem_cons, mem_insertBy le a x bs]
+      constructor
+      · rintro (h | h | h)
+        · exact Or.inr (Or.inl h)
+        · exact Or.inl h
+        · exact Or.inr (Or.inr h)
+      · rintro (h | h | h)
+        · exact Or.inr (Or.inl h)
+        · exact Or.inl h
+        · exact Or.inr (Or.inr h)
+
+private theorem mem_isort {α : Type} (le : α → α → Bool) (x : α) :
+    ∀ l : List α, x ∈ isort le l ↔ x ∈ l
+  | [] => by simp [isort]
+  | a :: l => by
+    have ih := mem_isort le x l
+    simp only [isort, List.foldr_cons] at ih ⊢
+    rw [mem_insertBy, ih, List.mem_cons]
+
+private theorem pairsMid_mem : ∀ (xs : List Rat) (c : Rat × Rat), c ∈ pairsMid xs →
+    ∃ a ∈ xs, ∃ b ∈ xs, c.1 = (a + b) / 2 ∧ c.2 = b - a
+  | [], c, h => by simp [pairsMid] at h
+  | [_], c, h => by simp [pairsMid] at h
+  | a :: b :: rest, c, h => by
+    simp only [pairsMid, List.mem_cons] at h
+    rcases h with h | h
+    · exact ⟨a, by simp, b, by simp, by rw [h], by rw [h]⟩
+    · obtain ⟨a', ha', b', hb', h1, h2⟩ := pairsMid_mem (b :: rest) c h
+      exact ⟨a', List.mem_cons_of_mem _ ha', b', List.mem_cons_of_mem _ hb', h1, h2⟩
+
+/-- [T] `scanCands_midpoint`: every candidate the scan tries is `((a + b) / 2, yMid)` with recorded
+width `b − a`, where `a` and `b` are abscissae at which `line_intersection` reports that a polygon
+edge (exterior or interior ring) meets the scan line. -/
+theorem scanCands_midpoint (poly : Poly) (mn mx : Pt) (c : Pt × Rat) (hc : c ∈ scanCands poly mn mx) :
+    ∃ e1 ∈ poly.lines, ∃ e2 ∈ poly.lines,
+      ∃ a ∈ hitXs ⟨mn.x, yMid mn mx poly.coords⟩ ⟨mx.x, yMid mn mx poly.coords⟩ e1,
+      ∃ b ∈ hitXs ⟨mn.x, yMid mn mx poly.coords⟩ ⟨mx.x, yMid mn mx poly.coords⟩ e2,
+        c.1 = ⟨(a + b) / 2, yMid mn mx poly.coords⟩ ∧ c.2 = b - a := by
+  simp only [scanCands, List.mem_map] at hc
+  obtain ⟨c', hc', rfl⟩ := hc
+  rw [mem_isort] at hc'
+  obtain ⟨a, ha, b, hb, h1, h2⟩ := pairsMid_mem _ c' hc'
+  rw [mem_isort, List.mem_flatMap] at ha hb
+  obtain ⟨e1, he1, ha⟩ := ha
+  obtain ⟨e2, he2, hb⟩ := hb
+  exact ⟨e1, he1, e2, he2, a, ha, b, hb, by simp only [h1], h2⟩
+
 /-! ### GeometryCollection: a member of the highest dimension present -/
 
 private theorem interiorCands_mem (len : Pt → Pt → Rat) (locOf : Poly → Pt → Pos) :
